@@ -189,6 +189,8 @@ def line_chain(chk, P):
 
 def run(chk, ctx):
     P = Prog(ctx["facts"])
+    from .iter_rules import plumbing_rule
+    plumbing_rule(chk, P, {"ParsedTestCase": ("stmts",), "TestCase": ("stmts",), "DataRowIteratorTestData": ("iter",)})   # what the parser / the binding produced is what runs
     from . import eqrules
     eqrules.require_clone(chk, P, ["stmt::DataEntries"], "expansion copies keep the row's line")
     chk.explanation = ("C19 decided structurally: WHO/GUARD (the two line counters start at 1, are handed over unchanged, and are incremented by exactly 1 only in the header loop's Eol arm and in the consume primitive on the edge tok.kind == Eol; "
